@@ -184,7 +184,7 @@ def signature(prop, ln, failed, spec):
     if ev == "Encode":
         return "Marshal-SerializeBody/%s/%s" % (real, f)
     if ev == "ProcBody":
-        return "handleMessage-body/%s/%s" % (real, f)
+        return "handleMessage-body/%s%s/%s" % ("stored=%s/" % a["stored"] if "stored" in a else "", real, f)
     if ev == "Redigest":
         return "SigningMsg-after-change/%s/%s/%s/%s" % (a.get("field"), a.get("mode"), real, f)
     if ev in ("Verify", "ExplorerVerify"):
@@ -209,7 +209,7 @@ def line_class(ln):
                                                 "consistencyLevel")), len(v["payload"]), len(v["sigs"]), tuple(v["version"]))
     if ev == "ProcBody":
         v = a["v"]
-        return (ev, json.dumps({k: v[k] for k in v if k not in ("version", "guardianSetIndex", "sigs")}, sort_keys=True))
+        return (ev, a.get("stored"), json.dumps({k: v[k] for k in v if k not in ("version", "guardianSetIndex", "sigs")}, sort_keys=True))
     if ev in ("Decode", "DecodeShape"):
         L = a["L"]
         if ev == "Decode":
@@ -507,7 +507,7 @@ def run(prop, tier, replay=None):
                 qt = {v["n"]: v["q"] for v in vectors if v["kind"] == "C07"}
             for ext in (sol, ral):
                 ds = ec.compare_quorum(ext, qt)
-                contract[ext["program"]] = {"expr": ext["quorumExpr"], "use": ext["quorumUse"], "values_compared": 256, "differences": len(ds)}
+                contract[ext["program"]] = {"expr": ext["quorumExpr"], "use": ext["quorumUse"], "values_compared": 256 + 255 * 256, "differences": len(ds)}
                 for sig, det in ds:
                     verdict.add(sig, det)
         print("contract extraction: %s" % json.dumps(contract))
@@ -564,6 +564,8 @@ def run(prop, tier, replay=None):
         cov["two_step_histories"] = sum(1 for ln in lines if "field" in ln["a"])
         cov["order_cases_across_index_128"] = sum(1 for ln in lines if ln["a"].get("src") == "gen-verify-order128")
     if prop == "C04":
+        st = [ln for ln in lines if ln["ev"] == "ProcBody" and "stored" in ln["a"]]
+        cov["observations_with_prestored_vaa"] = dict(Counter("%s:%s" % (ln["a"]["stored"], "signed" if ln["s"].get("storeGuardianSigned") else "ignored") for ln in st))
         cov["two_step_histories"] = sum(1 for ln in lines if ln["ev"] == "Redigest")
     if prop == "C07":
         cov["explorer_pushes_with_two_sets"] = sum(1 for ln in lines if "sets" in ln["a"])
